@@ -291,7 +291,7 @@ func (e *Engine) displayMultilinePrompts() {
 	// character with any secondary prompt available.
 	if e.line.Lines() > 0 {
 		term.MoveCursorBackwards(term.GetWidth())
-		e.prompt.SecondaryPrint()
+		e.prompt.SecondaryPrint(e.startCols)
 		term.MoveCursorBackwards(term.GetWidth())
 		term.MoveCursorForwards(e.lineCol)
 	}
